@@ -243,3 +243,150 @@ impl Group for Nested {
         l.split(' ').nth(1).unwrap_or("").to_owned()
     }
 }
+
+/// C10 through the control socket: whatever was said to a running instance before — commands that were refused,
+/// `wait`s that are still in flight — a shutdown completes once every *registered* waiter has been told and has answered.
+pub struct Ctl;
+const CTL_MSGS: [&str; 10] = ["ping", "ping a b", "wait", "wait x", "wait please now", "shutdown bogus", "shutdown no-wait extra", "nonexistent", "!ff", "clear nothing"];
+impl Group for Ctl {
+    fn timing_sensitive(&self) -> bool {
+        true
+    }
+    fn name(&self) -> &'static str {
+        "c10.ctl"
+    }
+    fn rule(&self) -> &'static str {
+        "a fresh instance (one listener, control socket) per case; 0-6 control messages drawn from {ping, wait (stays in flight until shutdown), wait with arguments (refused), shutdown with a bad argument (refused), unknown command, non-UTF-8, clear with a bad argument}; every message except a well-formed wait must be answered within 3 s; then shutdown (control message or Manager::shutdown); observations as in c10.scn (wait() unresolved before, resolved within 5 s after, port closed, count 0, every in-flight wait released) compared with the model's run with one hookRegister/hookAck per well-formed wait; non-trivial = a refused message or an in-flight wait preceded the shutdown"
+    }
+    fn parallel(&self) -> bool {
+        false
+    }
+    fn generate(&self, ctx: &Ctx, rng: &mut Rng) -> Vec<String> {
+        let n = if ctx.mode == Mode::Quick { 10 } else { 150 };
+        let mut v = vec![
+            "c10.ctl mgr [3]".to_owned(),
+            "c10.ctl ctl [4,2]".to_owned(),
+            "c10.ctl mgr [5,6,7,8,9]".to_owned(),
+        ];
+        for _ in 0..n {
+            let k = rng.below(7);
+            v.push(format!("c10.ctl {} {}", if rng.chance(1, 2) { "mgr" } else { "ctl" }, list((0..k).map(|_| rng.below(CTL_MSGS.len()).to_string()))));
+        }
+        v
+    }
+    fn driver_line(&self, line: &str) -> String {
+        let idx: Vec<usize> = parse_list(line.split(' ').nth(2).unwrap()).unwrap().iter().map(|s| s.parse().unwrap()).collect();
+        let k = idx.iter().filter(|i| CTL_MSGS[**i] == "wait").count();
+        let regs = vec!["hookRegister"; k].join(",");
+        let acks = vec!["hookAck"; k].join(",");
+        let pre = format!("{}{}lLoadF,lSetWaker,lRecheckF", regs, if k > 0 { "," } else { "" });
+        let rest = format!("callerStore,callerLoad,callerNotify,lLoadT,lClose,lUncount,lUncLoad,compRead,{}{}compFinish", acks, if k > 0 { "," } else { "" });
+        format!("c10.obs 1 [{pre}] [{rest}]")
+    }
+    fn run_impl(&self, ctx: &Ctx, line: &str) -> String {
+        let p: Vec<&str> = line.split(' ').collect();
+        let idx: Vec<usize> = parse_list(p[2]).unwrap().iter().map(|s| s.parse().unwrap()).collect();
+        let rt = tokio::runtime::Builder::new_multi_thread().worker_threads(3).enable_all().build().unwrap();
+        let dir = ctx.work.join("c10");
+        std::fs::create_dir_all(&dir).unwrap();
+        static N: AtomicUsize = AtomicUsize::new(0);
+        let path = dir.join(format!("ctl-{}-{}.sock", std::process::id(), N.fetch_add(1, Ordering::SeqCst)));
+        let _ = std::fs::remove_file(&path);
+        let mut ext = Extensions::empty();
+        ext.add_prepare_single("/", prepare!(_r, _h, _p, _a, { FatResponse::no_cache(Response::new(Bytes::from_static(b"hi"))) }));
+        let mut host = Host::unsecure("localhost", "/nonexistent", ext, host::Options::default());
+        host.limiter.disable();
+        let data = HostCollection::builder().insert(host).build();
+        let port = free_port();
+        let p2 = path.clone();
+        let started = std::panic::catch_unwind(std::panic::AssertUnwindSafe(|| {
+            rt.block_on(async move { kvarn::RunConfig::new().bind(kvarn::PortDescriptor::unsecure(port, data).ipv4_only()).set_ctl_path(&p2).execute().await })
+        }));
+        let Ok(mgr) = started else { rt.shutdown_background(); return "inconclusive: the instance did not start".into() };
+        for _ in 0..300 {
+            if path.exists() { break; }
+            std::thread::sleep(Duration::from_millis(10));
+        }
+        let fin = Arc::new(AtomicBool::new(false));
+        { let (m, f) = (mgr.clone(), fin.clone()); rt.spawn(async move { m.wait().await; f.store(true, Ordering::SeqCst); }); }
+        let send = |data: Vec<u8>, secs: u64| -> Option<Vec<u8>> {
+            let path = path.clone();
+            rt.block_on(async move {
+                match tokio::time::timeout(Duration::from_secs(secs), kvarn_signal::unix::send_to(data, &path)).await {
+                    Ok(kvarn_signal::unix::Response::Data(d)) => Some(d),
+                    _ => None,
+                }
+            })
+        };
+        let mut problems: Vec<String> = Vec::new();
+        let mut waits = Vec::new();
+        for i in &idx {
+            let m = CTL_MSGS[*i];
+            if m == "wait" {
+                let path = path.clone();
+                waits.push(rt.spawn(async move { kvarn_signal::unix::send_to(b"wait".to_vec(), &path).await }));
+                std::thread::sleep(Duration::from_millis(60));
+                continue;
+            }
+            let data = if let Some(h) = m.strip_prefix('!') { unhex(h).unwrap() } else { m.as_bytes().to_vec() };
+            match send(data, 3) {
+                Some(d) => {
+                    let refused = !(m.starts_with("ping"));
+                    if refused && !d.starts_with(b"error") { problems.push(format!("`{m}` was answered {:?}", String::from_utf8_lossy(&d))); }
+                }
+                None => problems.push(format!("`{m}` was not answered")),
+            }
+        }
+        std::thread::sleep(Duration::from_millis(40));
+        let mid = fin.load(Ordering::SeqCst);
+        if p[1] == "ctl" {
+            // the reply to `shutdown` comes when the shutdown has completed; do not wait for it here
+            let path = path.clone();
+            rt.spawn(async move { let _ = kvarn_signal::unix::send_to(b"shutdown".to_vec(), &path).await; });
+        } else {
+            let _g = rt.enter();
+            mgr.shutdown();
+        }
+        for _ in 0..500 { if fin.load(Ordering::SeqCst) { break; } std::thread::sleep(Duration::from_millis(10)); }
+        let end = fin.load(Ordering::SeqCst);
+        let late = Arc::new(AtomicBool::new(false));
+        { let (m, f) = (mgr.clone(), late.clone()); rt.spawn(async move { m.wait().await; f.store(true, Ordering::SeqCst); }); }
+        for _ in 0..60 { if late.load(Ordering::SeqCst) { break; } std::thread::sleep(Duration::from_millis(10)); }
+        let late = late.load(Ordering::SeqCst);
+        let mut released = 0;
+        let nwaits = waits.len();
+        for h in waits {
+            let r = rt.block_on(async move { tokio::time::timeout(Duration::from_secs(3), h).await });
+            if let Ok(Ok(kvarn_signal::unix::Response::Data(d))) = r { if d.starts_with(b"ok") { released += 1; } }
+        }
+        let closed = std::net::TcpStream::connect_timeout(&std::net::SocketAddr::from(([127, 0, 0, 1], port)), Duration::from_millis(300)).is_err();
+        let count = mgr.get_connecions();
+        rt.shutdown_background();
+        let _ = std::fs::remove_file(&path);
+        if !problems.is_empty() {
+            return format!("FAIL {problems:?}");
+        }
+        format!("mid={} end={} late={} closed={} count={count} acked={}", b01(mid), b01(end), b01(late), b01(closed), b01(released == nwaits))
+    }
+    fn oracle(&self, _ctx: &Ctx, line: &str, out: &str) -> Option<(String, String)> {
+        if out.starts_with("FAIL") || out == "panic" {
+            return Some((format!("ctl:{line}"), out.to_owned()));
+        }
+        if out.contains("end=0") || out.contains("late=0") {
+            return Some((format!("hang:{line}"), format!("the shutdown-complete signal was not delivered within 5 s although no connection was open: {out}")));
+        }
+        if out.contains("mid=1") {
+            return Some((format!("early:{line}"), format!("wait() resolved before any shutdown was requested: {out}")));
+        }
+        if out.contains("acked=0") {
+            return Some((format!("hook:{line}"), format!("an in-flight `wait` was not released by the shutdown: {out}")));
+        }
+        None
+    }
+    fn nontrivial(&self, line: &str, _o: &str) -> bool {
+        !line.ends_with("[]") && line.split(' ').nth(2).map_or(false, |l| parse_list(l).unwrap_or_default().iter().any(|i| i.parse::<usize>().map_or(false, |i| i >= 2)))
+    }
+    fn classify(&self, line: &str, o: &str) -> String {
+        format!("{} {}", line.split(' ').nth(1).unwrap_or(""), o.split(' ').nth(1).unwrap_or(o))
+    }
+}
